@@ -176,6 +176,22 @@ pub fn jobs(ctx: &Ctx) -> Vec<Prog> {
                 _ => Op::Version(*rng.pick(&[1usize, 2, 5, 10, 40]) ),
             });
         }
+        // coincidences: the image backdrop colour equals the background colour (or the module colour) of the same
+        // program, as in a dark-theme code with a logo on a matching backdrop
+        if rng.chance(1, 5) {
+            let donor = ops.iter().rev().find_map(|o| match o {
+                Op::Background(s) | Op::ModuleColor(s) => Some(s.clone()),
+                _ => None,
+            });
+            let c = donor.unwrap_or_else(|| "#101820".to_string());
+            if !ops.iter().any(|o| matches!(o, Op::Background(_))) {
+                ops.push(Op::Background(c.clone()));
+            }
+            ops.push(Op::ImageBg(c));
+            if !ops.iter().any(|o| matches!(o, Op::Image(s) if !s.is_empty())) {
+                ops.push(Op::Image("logo.png".into()));
+            }
+        }
         // make the classic partial settings frequent
         if k % 7 == 0 {
             ops.push(Op::Image("i.png".into()));
